@@ -172,8 +172,14 @@ impl Property for C13 {
                 if let Some(j) = compact_corrupt_read { st.set_who_plan([((1u32, j), crate::simkit::store::StoreFault::GetCorrupt)].into_iter().collect()); }
                 if compact_rename_ambiguous { st.inner.lock().unwrap().next_rename_fault.insert(1, crate::simkit::store::StoreFault::RenameAmbiguous); }
                 let mut compactor = Compactor::with_time_source(Arc::new(st_c.clone()), PREFIX.to_string(), ManifestManager::new(st_c.clone(), PREFIX), ccfg, clock.clone());
+                // every other fault-free layout is compacted the way the background worker does it: compact_if_needed()
+                let via_if_needed = compact_corrupt_read.is_none() && !compact_rename_ambiguous && n_compactions % 2 == 0;
                 for _ in 0..n_compactions {
-                    match compactor.compact().await { Ok(r) => { compact_ok.push(true); removed.extend(r.segments_removed.iter().map(|s| s.id)); } Err(_) => compact_ok.push(false) }
+                    if via_if_needed {
+                        match compactor.compact_if_needed().await { Ok(Some(r)) => { compact_ok.push(true); removed.extend(r.segments_removed.iter().map(|s| s.id)); } Ok(None) => compact_ok.push(false), Err(_) => compact_ok.push(false) }
+                    } else {
+                        match compactor.compact().await { Ok(r) => { compact_ok.push(true); removed.extend(r.segments_removed.iter().map(|s| s.id)); } Err(_) => compact_ok.push(false) }
+                    }
                 }
             } else {
                 let wcfg = WriteBufferConfig { flush_interval: Duration::from_millis(50), max_size_bytes: 1 << 20, max_deltas: 1000, backpressure_threshold_bytes: 1 << 22, compression_enabled: false };
